@@ -381,6 +381,9 @@ def _mro_names(eng, c, seen=None):
 
 
 def check(eng, res):
+    from . import c10 as _c10
+
+    _c10.copy_plain(eng, res)
     from ..fresh import fresh_flags
 
     res.doc("R-FRESH-FLAG", "A-FRESH: no condition flag tested inside a loop keeps its value from a previous iteration")
